@@ -187,6 +187,8 @@ class SpecDenotesBlock(NativeCase):
                 if len(spec) != 1 or len(sub) != 1 or list(sub[0]) != [t if not t.startswith('PUSH ') else t for t in sub[0]] or len(sub[0]) != len(toks):
                     continue        # split into several sub-blocks: each is covered when it appears as a block of its own
                 sfs = spec[list(spec)[0]]
+                wfv = speceval.wf_violation(sfs)
+                self.ob('specification well formed (producers, arities, commutative flags, acyclic)', wfv is None, inputs=inp, info=wfv)
                 lins = speceval.linearizations(sfs, limit=200)
                 self.ob('dependences+dataflow-are-acyclic', len(lins) > 0 or not [u for u in sfs["user_instrs"] if speceval.is_ordered(u)],
                         inputs=inp, info="no linearization")
